@@ -125,7 +125,14 @@ class Effects:
                     return {"fresh"}
                 if isinstance(fn, ast.Attribute):
                     if isinstance(fn.value, ast.Name) and fn.value.id in NUMPY_NAMES and fn.value.id not in env:
+                        # numpy functions that may hand back (a view of) their argument instead of a copy
+                        if fn.attr in ("asarray", "asanyarray", "ascontiguousarray", "asfarray", "ravel", "reshape", "squeeze", "atleast_1d", "transpose", "swapaxes") and node.args:
+                            return origins(node.args[0], env)
+                        if fn.attr == "array" and node.args and any(k.arg == "copy" and isinstance(k.value, ast.Constant) and k.value.value is False for k in node.keywords):
+                            return origins(node.args[0], env)
                         return {"fresh"}
+                    if fn.attr in ("view", "reshape", "ravel", "squeeze", "transpose", "swapaxes") and not (isinstance(fn.value, ast.Name) and fn.value.id in NUMPY_NAMES):
+                        return origins(fn.value, env)
                     if fn.attr in FRESH_ATTR_CALLS:
                         return {"fresh"}
                 if prog.class_of_ctor(f.mod, node):
